@@ -61,14 +61,16 @@ def run_tlc(module: str, cfg: str, *, scratch: Path, workers: int | str = 'auto'
             timeout: Optional[float] = None, coverage: bool = False,
             simulate: Optional[str] = None, depth: Optional[int] = None,
             deadlock: bool = False, seed: Optional[int] = None,
-            jvm_props: Optional[list] = None, tag: str = '') -> TLCResult:
+            jvm_props: Optional[list] = None, tag: str = '', cfg_text: Optional[str] = None) -> TLCResult:
     """Run TLC on spec/<module>.tla with spec/<cfg> inside `scratch`."""
     scratch = Path(scratch)
-    work = scratch / f'tlc_{module}_{tag}_{int(time.time() * 1000) % 10 ** 9}'
+    work = scratch / f'tlc_{module}_{tag}_{int(time.time() * 1000) % 10 ** 9}_{os.getpid()}_{id(env) % 100000}'
     work.mkdir(parents=True, exist_ok=True)
     for p in SPEC_DIR.iterdir():
         if p.suffix in ('.tla', '.cfg'):
             shutil.copy(p, work / p.name)
+    if cfg_text is not None:
+        (work / cfg).write_text(cfg_text)
     tmpd = work / 'jtmp'
     tmpd.mkdir(exist_ok=True)
     cmd = ['java', '-XX:+UseParallelGC', f'-Xmx{heap}', f'-Djava.io.tmpdir={tmpd}']
